@@ -57,6 +57,201 @@ def hashes_of(path):
     return out
 
 
+# ---- statement level: which statements of a changed function are new, and are they executed? ------
+_SKIP = (ast.Pass, ast.Global, ast.Nonlocal, ast.Import, ast.ImportFrom)
+
+
+def _stmt_key(node):
+    """hash of a statement; compound statements are hashed by their header only, so that a change in
+    a nested statement does not also make the enclosing statement look new"""
+    if isinstance(node, ast.If):
+        d = "If:" + ast.dump(node.test, include_attributes=False)
+    elif isinstance(node, ast.While):
+        d = "While:" + ast.dump(node.test, include_attributes=False)
+    elif isinstance(node, (ast.For, ast.AsyncFor)):
+        d = "For:" + ast.dump(node.target, include_attributes=False) + ast.dump(node.iter, include_attributes=False)
+    elif isinstance(node, (ast.With, ast.AsyncWith)):
+        d = "With:" + "".join(ast.dump(i, include_attributes=False) for i in node.items)
+    elif isinstance(node, ast.Try):
+        d = "Try:" + "".join(ast.dump(h.type, include_attributes=False) if h.type else "bare" for h in node.handlers)
+    elif isinstance(node, (ast.FunctionDef, ast.AsyncFunctionDef, ast.ClassDef)):
+        d = type(node).__name__ + ":" + node.name
+    elif isinstance(node, ast.Match):
+        d = "Match:" + ast.dump(node.subject, include_attributes=False)
+    else:
+        d = ast.dump(node, include_attributes=False)
+    return hashlib.sha256(d.encode()).hexdigest()[:12]
+
+
+def _header_span(node):
+    """line span of the part of a statement that is executed when the statement is reached"""
+    first_child = None
+    for fld in ("body",):
+        b = getattr(node, fld, None)
+        if isinstance(b, list) and b and isinstance(b[0], ast.stmt):
+            first_child = b[0].lineno
+    if isinstance(node, ast.Match) and node.cases:
+        first_child = node.cases[0].pattern.lineno
+    end = getattr(node, "end_lineno", node.lineno)
+    if first_child is not None and first_child > node.lineno:
+        end = first_child - 1
+    return node.lineno, max(end, node.lineno)
+
+
+def _is_docstring(node):
+    return isinstance(node, ast.Expr) and isinstance(getattr(node, "value", None), ast.Constant) and isinstance(node.value.value, str)
+
+
+def _stmts(fn):
+    """all statements inside a function (nested blocks and nested defs included), in source order"""
+    out = []
+
+    def rec(body):
+        for st in body:
+            if isinstance(st, _SKIP) or _is_docstring(st):
+                continue
+            if isinstance(st, ast.AnnAssign) and st.value is None:
+                continue
+            out.append(st)
+            for fld in ("body", "orelse", "finalbody"):
+                b = getattr(st, fld, None)
+                if isinstance(b, list) and b and isinstance(b[0], ast.stmt):
+                    rec(b)
+            for h in getattr(st, "handlers", []) or []:
+                rec(h.body)
+            for c in getattr(st, "cases", []) or []:
+                rec(c.body)
+
+    rec(fn.body)
+    return out
+
+
+def stmts_of(path):
+    """{qualname: [(key, lineno, end_lineno_of_header)]} for every function of the file"""
+    res = {}
+    try:
+        tree = ast.parse(open(path, encoding="utf-8").read())
+    except Exception:
+        return res
+
+    def walk(node, prefix):
+        for ch in getattr(node, "body", []):
+            if isinstance(ch, (ast.FunctionDef, ast.AsyncFunctionDef)):
+                res[prefix + ch.name] = [(_stmt_key(st),) + _header_span(st) for st in _stmts(ch)]
+            elif isinstance(ch, ast.ClassDef):
+                walk(ch, prefix + ch.name + ".")
+
+    walk(tree, "")
+    return res
+
+
+def new_statements(changed):
+    """changed: the 'file::qualname' entries returned by drift().  Returns the statements of those
+    functions that the committed baseline does not have (all statements for a new function):
+    [{file, path, qualname, line, end, src}]"""
+    try:
+        base = json.load(open(BASE)).get("__stmts__", {})
+    except FileNotFoundError:
+        base = {}
+    out = []
+    by_file = {}
+    for c in changed:
+        f, _, q = c.partition("::")
+        q = q.replace(" (removed)", "")
+        if q.endswith("<body>") or q in ("<new file>", "<unparsable>"):
+            if q == "<new file>":
+                by_file.setdefault(f, None)  # every function of a new file
+            continue
+        if by_file.get(f, set()) is not None:
+            by_file.setdefault(f, set()).add(q)
+    for f, quals in by_file.items():
+        path = os.path.realpath(os.path.join(repo_root(), f))
+        cur = stmts_of(path)
+        try:
+            lines = open(path, encoding="utf-8").read().splitlines()
+        except OSError:
+            lines = []
+        for q, sts in cur.items():
+            if quals is not None and q not in quals:
+                continue
+            have = list(base.get(f, {}).get(q, []))
+            for key, lo, hi in sts:
+                if key in have:
+                    have.remove(key)
+                    continue
+                out.append({"file": f, "path": path, "qualname": q, "line": lo, "end": hi,
+                            "src": lines[lo - 1].strip()[:160] if 0 < lo <= len(lines) else ""})
+    return out
+
+
+class Coverage:
+    """Which of the given statements were executed at least once by this process or by processes
+    forked from it (sys.monitoring LINE events, each location reported once: negligible overhead).
+    Child interpreters started with exec are not seen."""
+
+    TOOL = 3
+
+    def __init__(self, stmts, run_dir):
+        self.stmts = stmts
+        self.want = {}
+        for s in stmts:
+            self.want.setdefault(s["path"], set()).update(range(s["line"], s["end"] + 1))
+        self.log = os.path.join(run_dir, f"cov-{os.getpid()}.txt")
+        self.active = False
+
+    def start(self):
+        import sys
+        if not self.stmts or not hasattr(sys, "monitoring"):
+            return
+        mon = sys.monitoring
+        try:
+            mon.use_tool_id(self.TOOL, "verif-drift-coverage")
+        except ValueError:
+            return
+        fd = os.open(self.log, os.O_WRONLY | os.O_CREAT | os.O_TRUNC | os.O_APPEND, 0o644)
+        want = self.want
+        cache = {}
+
+        def on_line(code, line):
+            f = code.co_filename
+            w = cache.get(f, 0)
+            if w == 0:
+                w = cache[f] = want.get(os.path.realpath(f)) if f and not f.startswith("<") else None
+            if w is not None and line in w:
+                try:
+                    os.write(fd, f"{os.path.realpath(f)}:{line}\n".encode())
+                except OSError:
+                    pass
+            return mon.DISABLE
+
+        mon.register_callback(self.TOOL, mon.events.LINE, on_line)
+        mon.set_events(self.TOOL, mon.events.LINE)
+        self.active = True
+
+    def stop(self):
+        import sys
+        if not self.active:
+            return
+        mon = sys.monitoring
+        mon.set_events(self.TOOL, 0)
+        mon.register_callback(self.TOOL, mon.events.LINE, None)
+        mon.free_tool_id(self.TOOL)
+        self.active = False
+
+    def uncovered(self):
+        """statements never executed; None if monitoring was unavailable"""
+        if not self.stmts:
+            return []
+        if not os.path.exists(self.log):
+            return None
+        hit = {}
+        for l in open(self.log):
+            f, _, n = l.strip().rpartition(":")
+            if n.isdigit():
+                hit.setdefault(f, set()).add(int(n))
+        return [s for s in self.stmts if not (hit.get(s["path"], set()) & set(range(s["line"], s["end"] + 1)))]
+
+
 def files_under(rel):
     root = repo_root()
     p = os.path.join(root, rel)
@@ -93,6 +288,7 @@ def drift(prop_id, extra=()):
         base = json.load(open(BASE))
     except FileNotFoundError:
         return []
+    base = {k: v for k, v in base.items() if not k.startswith("__")}
     rels = list(anchors_of(prop_id)) + list(extra)
     cur = snapshot(rels)
     changed = []
@@ -114,6 +310,10 @@ if __name__ == "__main__":
     # maintainer command: record the baseline for the whole package
     snap = snapshot(["okdmr/dmrlib"])
     snap = {f: h for f, h in snap.items() if "/tests/" not in f}
+    snap["__stmts__"] = {f: {q: [k for k, _, _ in sts] for q, sts in stmts_of(os.path.join(repo_root(), f)).items()} for f in snap}
+    import subprocess
+    snap["__head__"] = subprocess.run(["git", "-C", repo_root(), "rev-parse", "HEAD"], capture_output=True, text=True).stdout.strip()
     with open(BASE, "w") as f:
         json.dump(snap, f, indent=0, sort_keys=True)
-    print(f"{len(snap)} files, {sum(len(v) for v in snap.values())} hashed bodies")
+    print(f"{len(snap) - 2} files, {sum(len(v) for k, v in snap.items() if not k.startswith('__'))} hashed bodies, "
+          f"{sum(len(x) for v in snap['__stmts__'].values() for x in v.values())} statements, HEAD {snap['__head__'][:8]}")
